@@ -374,7 +374,22 @@ pub fn test_block(ctx: &Ctx, case: &BlockCase, rep: &mut Report) -> Result<(), V
     } else {
         "other"
     };
-    if !case.authorizer.block.scopes.is_empty() {
+    // the authorizer-level scope survives the dump when the builder parsed back from it carries
+    // the same scope (read from the builders' snapshots)
+    let scope_survives = {
+        use prost::Message;
+        let scopes_of = |x: &b::AuthorizerBuilder| {
+            x.to_raw_snapshot()
+                .ok()
+                .and_then(|s| biscuit_auth::format::schema::AuthorizerSnapshot::decode(&s[..]).ok())
+                .map(|s| s.world.authorizer_block.scope.len())
+        };
+        match guard(|| b::AuthorizerBuilder::new().code(&dump).ok().and_then(|ab2| scopes_of(&ab2))) {
+            Ok(Some(n)) => Some(n) == scopes_of(&ab) && n > 0,
+            _ => false,
+        }
+    };
+    if !case.authorizer.block.scopes.is_empty() && !scope_survives {
         let vio = v(
             "authorizer-scope-not-dumped".to_string(),
             format!("authorizer scope {:?} does not appear in dump_code():\n{dump}", case.authorizer.block.scopes),
